@@ -371,7 +371,7 @@ func ruleValidatePass(p *Program, r *Result) map[string]*ssa.Function {
 			r.undecided("R-VALIDATE-PASS", t, "-", "UNRESOLVED Validate/MarshalBinary/UnmarshalBinary of %s", t)
 			continue
 		}
-		validators[t] = V
+		validators[t] = p.view(V)
 		for _, fn := range []*ssa.Function{M, U} {
 			key := fmt.Sprintf("%s.%s", t, fn.Name())
 			var vc *ssa.Call
